@@ -34,6 +34,30 @@ def flag_place(t, name):
     return isinstance(t, tuple) and mentions(t, lambda s: s[0] == "field" and s[3] == name and strip_refs(s[1]) == ("param", 1))
 
 
+def is_flag_read(t):
+    """a read of the captured @ignore state: the captured bool itself (`*ignore`), or a bool field of a captured state struct (`ignore.pending`)"""
+    if not (isinstance(t, tuple) and t and t[0] in ("deref", "field")):
+        return False
+    x = t
+    while isinstance(x, tuple) and x and x[0] in ("deref", "field", "ref", "refmut"):
+        x = x[1]
+    return x == ("param", 1) and flag_place(t, "ignore")
+
+
+def false_init(x):
+    """the initial value of the captured state is `not ignoring`: false, or a state struct all of whose fields are false / bool::default()"""
+    x = strip_refs(x)
+    if isinstance(x, tuple) and x and x[0] == "loc" and len(x) > 2:
+        x = strip_refs(x[2])
+    if const_of(x) is False:
+        return True
+    if is_call(x, "<bool as std::default::Default>::default"):
+        return True
+    if isinstance(x, tuple) and x[:2] == ("agg", "adt") and x[4]:
+        return all(false_init(f) for f in x[4])
+    return False
+
+
 def transitions(ctx, ckey):
     """(kind, ignore_in) -> dict(emit, ignore_out, prefix_write, path)"""
     fx = ctx.fx
@@ -43,7 +67,7 @@ def transitions(ctx, ckey):
         kinds = entry_of(fx, p)
         ign = None
         for c in p.conds():
-            if flag_place(c.term, "ignore") and c.term[0] == "deref":
+            if is_flag_read(c.term):
                 ign = (c.fact == ("eq", True))
         r = p.end[1]
 
@@ -55,7 +79,7 @@ def transitions(ctx, ckey):
             if isinstance(t, tuple) and t and t[0] == "unop" and t[1] == "Not":
                 v = under(t[2], iv)
                 return None if v is None else (not v)
-            if isinstance(t, tuple) and t and t[0] == "deref" and flag_place(t, "ignore") and not is_call(t):
+            if is_flag_read(t):
                 return iv
             return None
         flag_valued = ign is None and under(r, False) is not None and under(r, True) is not None and under(r, False) != under(r, True)
@@ -253,6 +277,24 @@ def run(ctx):
                             view = x == ("param", 2)
                     if view:
                         ad = strip_refs(call_args(ad)[0])
+                # a stateless projection after the stateful filter: entries.iter().filter(state closure).filter_map(|e| match e { File(f) => Some(..), _ => None }):
+                # what is emitted is what the filter lets through, provided the projection keeps every kind the filter can let through
+                if vs["kind"] == "filter_map" and is_call(ad, "::filter_map") and is_call(strip_refs(call_args(ad)[0]), "Iterator::filter", "::filter") and len(call_args(ad)) == 2:
+                    c1 = strip_refs(call_args(ad)[1])
+                    inner = strip_refs(call_args(ad)[0])
+                    c0 = strip_refs(call_args(inner)[1]) if len(call_args(inner)) == 2 else None
+                    if isinstance(c1, tuple) and c1[:2] == ("agg", "closure") and not c1[4] and isinstance(c0, tuple) and c0[:2] == ("agg", "closure") and c0[2] == ck:
+                        keeps, drops = set(), set()
+                        for q in ret_paths(ctx.paths(c1[2]) or []):
+                            if unwrap_some(q.end[1]) is not None:
+                                keeps |= entry_of(fx, q)
+                            elif is_none(q.end[1]):
+                                drops |= entry_of(fx, q)
+                            else:
+                                drops |= set(kinds)
+                        lets = {k_ for (k_, iv_), rows_ in table.items() if any(r_["emit"] for r_ in rows_)}
+                        if lets and lets <= keeps and not (lets & drops):
+                            ad = ("call", "std::iter::Iterator::filter_map", (), (call_args(inner)[0], c0), None)
                 ok = is_call(ad, "::" + vs["kind"])
                 if ok:
                     src = strip_refs(call_args(ad)[0])
@@ -262,7 +304,7 @@ def run(ctx):
                     # captured initial values
                     caps = clo[4] if ok else ()
                     inits = [strip_refs(c) for c in caps]
-                    okinit = any(const_of(x) is False for x in inits)
+                    okinit = any(false_init(x) for x in inits)
                     if vs["prefix"]:
                         okinit = okinit and any(is_none(x) for x in inits)
                     ok = ok and okinit
